@@ -93,7 +93,7 @@ inline std::string mutate_file(vf::Chooser& c, const std::string& valid, unsigne
     for (unsigned e = 0; e < nedits; e++) {
       std::vector<Node*> all, ints, strs, conts;
       collect(root, all, ints, strs, conts);
-      uint64_t kind = c.range(0, 14);
+      uint64_t kind = c.range(0, 15);
       switch (kind) {
         case 0: {  // declared length / count of a string or container
           std::vector<Node*> cand = strs; cand.insert(cand.end(), conts.begin(), conts.end());
@@ -231,6 +231,23 @@ inline std::string mutate_file(vf::Chooser& c, const std::string& valid, unsigne
               }
           }
           if (done) st.kinds["huge_count_with_huge_max_block_items"]++;
+          break;
+        }
+        case 14: {  // unknown member whose value is a string / array / map head declaring 2^63..2^64-1 (a skipped item, never stored): length arithmetic of skip paths
+          std::vector<Node*> maps;
+          for (Node* n : conts) if (n->major == cref::MAP) maps.push_back(n);
+          if (maps.empty()) break;
+          Node* p = maps[c.range(0, maps.size() - 1)];
+          uint64_t m = c.range(0, 4);
+          uint64_t len = m == 0 ? 0xFFFFFFFFFFFFFFFFull - c.range(0, 40) : m == 1 ? 0x8000000000000000ull + c.range(0, 3) : m == 2 ? 0x7FFFFFFFFFFFFFFFull - c.range(0, 3) : m == 3 ? 0xFFFFFFFFFFFF0000ull + c.range(0, 0xFFFF) : c.uint_bits(64) | 0x8000000000000000ull;
+          Node v; v.major = RAW;
+          uint8_t major = (uint8_t)c.pick<int>({cref::BSTR, cref::TSTR, cref::BSTR, cref::TSTR, cref::ARR, cref::MAP});
+          cref::put_head(v.str, major, len, 27);
+          size_t tail = (size_t)c.range(0, 3) == 0 ? (size_t)c.range(0, 300) : 0;
+          for (size_t i = 0; i < tail; i++) v.str.push_back((char)c.range(0, 255));
+          p->kids.insert(p->kids.begin() + 2 * c.range(0, p->kids.size() / 2), {cref::mk_int((__int128)(c.coin() ? c.range(40, 300) : c.range(0, 40))), v});
+          ov.clear();
+          st.kinds["huge_skipped_item"]++;
           break;
         }
         default: st.kinds["none"]++; break;
